@@ -8,6 +8,7 @@ Angles are in radians; `deg d = d·π/180`.
 import CfVerif.Proofs.C15Angles
 import CfVerif.Proofs.C15Solver
 import CfVerif.Proofs.C15Ippe
+import CfVerif.Proofs.C15Quat
 namespace CfVerif.C15
 open CfVerif
 
@@ -47,6 +48,17 @@ theorem gen_param_layout : Gen.C15.len_rot_vec = 3 ∧ Gen.C15.len_pose = 6 ∧
     Gen.C15.poseToParamsReturn = "np.concatenate((pose.rot_vec, pose.translation))" := by decide
 theorem gen_ippe_loop : Gen.C15.ippeCfToIppeLoop =
     ["U_t[i] = IppeCf._rotate_vector_to_ippe(U_cf[i])", "Q_t[i] = np.array((-Q_cf[i][0], -Q_cf[i][1]))"] := by decide
+
+theorem gen_angle_list : Gen.C15.angleListAssigns =
+    ["result = np.empty(len(self) * 2, dtype=float)", "result[i * 2] = vector.lh_v1_horiz_angle",
+     "result[i * 2 + 1] = vector.lh_v1_vert_angle"] := by decide
+
+/-! ## The real-number reading of `math.atan2` (sanity of the trusted instance in Proofs/C15Real) -/
+
+/-- `atan2R y x` is the angle of the point (x, y): with r = √(x² + y²), r·cos θ = x, r·sin θ = y and −π < θ ≤ π -/
+theorem atan2_is_the_angle (y x : ℝ) (h : x ≠ 0 ∨ y ≠ 0) :
+    √(x ^ 2 + y ^ 2) * Real.cos (RealOps.atan2 y x) = x ∧ √(x ^ 2 + y ^ 2) * Real.sin (RealOps.atan2 y x) = y ∧
+    -Real.pi < RealOps.atan2 y x ∧ RealOps.atan2 y x ≤ Real.pi := atan2R_spec y x h
 
 /-! ## Field of view -/
 
@@ -105,6 +117,10 @@ theorem cart_unit (h v : ℝ) : V3.dot (BsVec.mk h v).cart (BsVec.mk h v).cart =
 /-- V1 -> cartesian -> V1 -/
 theorem cart_of_from_cart (h v : ℝ) (hf : InFov h v) : BsVec.fromCart (BsVec.mk h v).cart = ⟨h, v⟩ :=
   fromCart_cart hf.horiz hf.vert'
+
+/-- cartesian -> V1 -> cartesian normalises: every vector with x > 0 comes back divided by its length -/
+theorem from_cart_normalises (c : V3 ℝ) (hx : 0 < c.x) :
+    (BsVec.fromCart c).cart = ⟨c.x / V3.norm c, c.y / V3.norm c, c.z / V3.norm c⟩ := cart_fromCart hx
 
 /-- cartesian -> V1 -> cartesian, for every unit vector pointing into the front half space -/
 theorem from_cart_of_cart (c : V3 ℝ) (hx : 0 < c.x) (hu : V3.dot c c = 1) : (BsVec.fromCart c).cart = c := by
@@ -174,8 +190,42 @@ theorem rigid_preserves_distance (P : Pose ℝ) (hP : P.IsRigid) (p q : V3 ℝ) 
     V3.dot (V3.sub (P.rotateTranslate p) (P.rotateTranslate q)) (V3.sub (P.rotateTranslate p) (P.rotateTranslate q)) =
       V3.dot (V3.sub p q) (V3.sub p q) := rt_dist hP p q
 
+/-- `scale` — the only mutator of a Pose — multiplies the translation by the factor, leaves the rotation untouched and
+keeps the pose rigid; so every law above holds again in the object's new state (the laws are stated for all poses) -/
+theorem scale_state (P : Pose ℝ) (k : ℝ) :
+    (P.scale k).R = P.R ∧ (P.scale k).t = V3.smul k P.t ∧ (P.IsRigid → (P.scale k).IsRigid) :=
+  ⟨rfl, rfl, fun h => scale_rigid h k⟩
+
+/-- in particular the inverse transform after `scale` uses the scaled translation -/
+theorem inv_after_scale (P : Pose ℝ) (hP : P.IsRigid) (k : ℝ) (p : V3 ℝ) :
+    (P.scale k).invRotateTranslate ((P.scale k).rotateTranslate p) = p ∧
+    (P.scale k).invRotateTranslate p = P.R.transpose.mulVec (V3.sub p (V3.smul k P.t)) :=
+  ⟨inv_rt_rt (scale_rigid hP k) p, rfl⟩
+
 /-- a pose built from ANY rotation vector (the matrix scipy computes: Rodrigues) is rigid -/
 theorem from_rot_vec_rigid (r t : V3 ℝ) : (Pose.fromRotVec r t).IsRigid := fromRotVec_rigid r t
+
+/-! ### Views of one rotation (PARTIAL: about the specification of the scipy conversions, see docs/C15.md)
+
+`Pose.from_rot_vec` / `Pose.from_quat` / `rot_vec` / `rot_quat` delegate to scipy's `Rotation`.  The model contains the
+textbook specification of the forward conversions (`rotVecMatrix`, `quatMatrix`, `rotVecQuat`), validated against scipy
+by the correspondence; the theorems below show these specifications agree with each other and produce rigid poses.
+Full statement NOT proved: for every pose P built by the library, `Pose.from_rot_vec(P.rot_vec)` and
+`Pose.from_quat(P.rot_quat)` have P's matrix — the matrix -> vector/quaternion direction (scipy's `from_matrix`,
+`as_rotvec`, `as_quat`) is outside the model and is only sampled (search()). -/
+
+/-- the matrix stored by `Pose.from_quat(q)` is orthogonal for every non-zero quaternion (scipy normalises it) -/
+theorem views_quat_rigid_partial (q : Quat ℝ) (hq : 0 < q.normSq) : (quatMatrix q).IsOrthogonal :=
+  quatMatrix_orthogonal q hq
+
+/-- `q` and `-q` are views of the same pose -/
+theorem views_quat_sign_partial (q : Quat ℝ) : quatMatrix ⟨-q.x, -q.y, -q.z, -q.w⟩ = quatMatrix q := quatMatrix_neg q
+
+/-- the quaternion view `(axis·sin(θ/2), cos(θ/2))` of a rotation vector is a unit quaternion with the same rotation
+matrix as the rotation vector — for every rotation vector, including zero and half turns -/
+theorem views_rotvec_quat_agree_partial (r : V3 ℝ) :
+    (rotVecQuat r).normSq = 1 ∧ quatMatrix (rotVecQuat r) = rotVecMatrix r :=
+  ⟨rotVecQuat_unit r, quatMatrix_rotVecQuat r⟩
 
 /-! ## Clause 3: the solver's vectorised projection equals the projection defined by the types -/
 
@@ -282,6 +332,7 @@ example : |(0.3 : ℝ) + 0.5| < Real.pi ∧ |(0.5 : ℝ) - 0.3| < Real.pi := by
 example : (⟨⟨⟨1, 0, 0⟩, ⟨0, -1, 0⟩, ⟨0, 0, -1⟩⟩, ⟨1, 2, 3⟩⟩ : Pose ℝ).IsRigid := by
   unfold Pose.IsRigid M3.IsOrthogonal
   ext <;> simp [M3.mul, M3.transpose, M3.one, M3.col0, M3.col1, M3.col2, V3.dot]
+example : 0 < (⟨1, -2, 0, 2⟩ : Quat ℝ).normSq := by norm_num [Quat.normSq]
 example : (0 : ℝ) < (⟨3 / 5, 0, 4 / 5⟩ : V3 ℝ).x ∧ V3.dot (⟨3 / 5, 0, 4 / 5⟩ : V3 ℝ) ⟨3 / 5, 0, 4 / 5⟩ = 1 := by
   constructor <;> norm_num [V3.dot]
 
